@@ -220,7 +220,8 @@ func (r *runner) hit(site, what, detail string) {
 }
 
 func atoiStrict(s string, neg bool) (int, bool) {
-	if s == "" || len(s) > 9 {
+	// digits only (optional leading '-' when neg); the whole int64 range is accepted (extreme priorities), nothing beyond
+	if s == "" || len(s) > 20 {
 		return 0, false
 	}
 	t := s
@@ -235,8 +236,8 @@ func atoiStrict(s string, neg bool) (int, bool) {
 			return 0, false
 		}
 	}
-	n, err := strconv.Atoi(s)
-	return n, err == nil
+	n, err := strconv.ParseInt(s, 10, 64)
+	return int(n), err == nil
 }
 
 func posCap(n int) int {
@@ -691,6 +692,17 @@ func runCase(c corr.Case) (res corr.Result) {
 
 var kinds = []string{"q", "async", "mux", "mq", "syncq", "priq"}
 
+// extreme priorities: pairs more than MaxInt64 apart (a difference-based Less overflows on them)
+var extremePrios = []string{"-9223372036854775808", "-9223372036854775807", "-1", "0", "1", "9223372036854775806", "9223372036854775807",
+	"4611686018427387904", "-4611686018427387905"}
+
+func prio(r *rng.R, extreme bool) string {
+	if extreme && r.Chance(1, 2) {
+		return r.Pick(extremePrios...)
+	}
+	return strconv.Itoa(r.PickInt(0, 1, 1, 2, 2, -1, 5))
+}
+
 func newLine(r *rng.R, kind string) string {
 	cp := func() int { return r.PickInt(0, 0, 1, 1, 2, 2, 3, 3, 4, -1, 7) }
 	switch kind {
@@ -708,7 +720,8 @@ func genScript(r *rng.R, kind string, n int) corr.Case {
 	lines := []string{newLine(r, kind)}
 	next := 1
 	item := func() string { next++; return strconv.Itoa(next - 1) }
-	size, closed := 0, false // rough estimate, only steers the generator (never decides a result)
+	extreme := r.Chance(1, 3) // a third of the PriQueue histories mix in extreme priorities
+	size, closed := 0, false  // rough estimate, only steers the generator (never decides a result)
 	closeAt := -1            // at most one close, in the second half (a third of the histories never close)
 	if r.Chance(2, 3) {
 		closeAt = r.Range(n/2, n-1)
@@ -719,7 +732,7 @@ func genScript(r *rng.R, kind string, n int) corr.Case {
 		if kind == "priq" {
 			switch {
 			case k < 55:
-				l = "push " + item() + " " + strconv.Itoa(r.PickInt(0, 1, 1, 2, 2, -1, 5))
+				l = "push " + item() + " " + prio(r, extreme)
 			case k < 90:
 				l = "pop"
 			default:
@@ -788,7 +801,7 @@ func genDrain(r *rng.R, kind string) corr.Case {
 	for i := 1; i <= n; i++ {
 		switch {
 		case kind == "priq":
-			lines = append(lines, fmt.Sprintf("push %d %d", i, r.PickInt(0, 1, 2)))
+			lines = append(lines, fmt.Sprintf("push %d %s", i, prio(r, n%2 == 0)))
 		case kind == "mq" && r.Chance(1, 3):
 			lines = append(lines, fmt.Sprintf("%s %d", r.Pick("addc", "priorc"), i))
 		case kind != "syncq" && r.Chance(1, 4):
@@ -857,6 +870,12 @@ func fixedCases() []corr.Case {
 		mk("fixed", "new syncq", "len", "trypop", "add 1", "add 2", "len", "pop", "close", "add 3", "len", "trypop", "trypop", "pop", "len"),
 		mk("fixed", "new syncq", "pop", "add 1", "pop", "pop", "close", "pop"),
 		mk("fixed", "new priq 3", "pop", "push 1 1", "push 2 5", "push 3 1", "push 4 5", "len", "pop", "pop", "push 5 1", "pop", "pop", "pop", "pop"),
+		// extreme priorities: every pair more than MaxInt64 apart must still come out highest first, FIFO among equals
+		mk("fixed", "new priq 8", "push 1 -1", "push 2 9223372036854775807", "pop", "pop"),
+		mk("fixed", "new priq 8", "push 1 -9223372036854775808", "push 2 1", "pop", "pop"),
+		mk("fixed", "new priq 8", "push 1 -9223372036854775807", "push 2 9223372036854775807", "push 3 0", "push 4 -9223372036854775808",
+			"push 5 9223372036854775806", "push 6 9223372036854775807", "push 7 -1", "push 8 1", "pop", "pop", "pop", "pop", "pop", "pop", "pop", "pop", "pop"),
+		mk("fixed", "new priq 4", "push 1 0", "push 2 -9223372036854775808", "push 3 9223372036854775807", "push 4 0", "pop", "push 5 -9223372036854775808", "pop", "pop", "pop", "pop"),
 		mk("fixed", "new priq 0", "push 1 1", "pop", "len"),
 		mk("fixed", "new priq -1", "push 1 1", "pop"),
 		mk("fixed", "new q 1", "pop", "popany", "add 1", "pop", "pop"),
